@@ -567,7 +567,6 @@ class Checker:
         c = self.c
         n = c.n
         model = c.mp.model
-        loc = {}   # dof -> (site, lowering matrix |vac or partner structure)
         # rho_ij = <Psi| a_i^dag a_j |Psi> with a^dag a between two dofs (code's documented convention,
         # no fermionic sign).  Build the dense operator from elementary matrices.
         items = []
@@ -628,7 +627,7 @@ class Checker:
         tol = _tol(n, c.sscale ** 2 * 4)
         if got.shape != want.shape:
             self.fail(f"calc_edof_rdm:{c.form}:shape", dict(got=L.ser_val(got), want=L.ser_val(want)))
-        elif np.max(np.abs(got - want)) > tol + (1e-8 if True else 0):
+        elif np.max(np.abs(got - want)) > tol + 1e-8:
             # expectations() inside may drop |Im| <= 1e-8 for the whole batch
             self.fail(f"calc_edof_rdm:{c.form}:value", dict(got=L.ser_val(got), want=L.ser_val(want)))
         elif np.max(np.abs(got.real - want.real)) > tol:
@@ -824,6 +823,5 @@ def search(run, rng, quick):
     run.cov["evaluations"] = run.cov.get("evaluations", 0) + ncase
     run.cov["distinct_nontrivial"] = len(distinct)
     run.cov["max_error_over_tolerance"] = MAXR[0]
-    run.count("max_err/tol(x1e6)", int(MAXR[0] * 1e6) - run.counts.get("max_err/tol(x1e6)", 0))
     run.cov["rule"] = ("distinct (basis description, Mps/MpDm, dtype, bond dimensions, gauge history) with some bond "
                        "dimension > 1 (or a one-site chain); each case runs every observable family")
